@@ -147,9 +147,10 @@ def set_owner_process(uid, gid, initgroups=False):
             except KeyError:
                 initgroups = False
 
+        # initgroups() only sets the supplementary groups
         if initgroups:
             os.initgroups(username, gid)
-        elif gid != os.getgid():
+        if gid != os.getgid():
             os.setgid(gid)
 
     if uid and uid != os.getuid():
